@@ -85,10 +85,11 @@ type State struct {
 	panicking bool
 	recovered bool
 	written   map[*Cell]bool
+	delegCalls int // calls of the contract's `delegates` target seen on this path
 }
 
 func (s *State) Clone() *State {
-	n := &State{mem: make(map[*Cell]Val, len(s.mem)), panicking: s.panicking, recovered: s.recovered, extWrites: s.extWrites, links: s.links}
+	n := &State{mem: make(map[*Cell]Val, len(s.mem)), panicking: s.panicking, recovered: s.recovered, extWrites: s.extWrites, links: s.links, delegCalls: s.delegCalls}
 	for k, v := range s.mem {
 		n.mem[k] = v
 	}
